@@ -27,9 +27,11 @@ for id in "$@"; do
   echo "   check $id on patched copy: rc=$rc  $(echo "$out" | grep -m1 'violation:' | cut -c1-300)"
 done
 D=/verif/seeded/$NAME; mkdir -p "$D"
-cp "$SRC/patch.diff" "$D/"; cp "$SRC/meta.json" "$D/agent_meta.json" 2>/dev/null
-for f in "$SRC"/demo.sh "$SRC"/*_test.go "$SRC"/*.c "$SRC"/demo_output.txt; do [ -f "$f" ] && cp "$f" "$D/"; done
-[ -d "$SRC/stubs" ] && cp -r "$SRC/stubs" "$D/"
+if [ "$(readlink -f "$SRC")" != "$(readlink -f "$D")" ]; then
+  cp "$SRC/patch.diff" "$D/"; cp "$SRC/meta.json" "$D/agent_meta.json" 2>/dev/null
+  for f in "$SRC"/demo.sh "$SRC"/*.go "$SRC"/*.c "$SRC"/*.h "$SRC"/demo_output.txt; do [ -f "$f" ] && cp "$f" "$D/"; done
+  [ -d "$SRC/stubs" ] && cp -r "$SRC/stubs" "$D/"
+fi
 {
  echo "{"
  echo " \"name\": \"$NAME\", \"patch_applies\": $([ $applied -eq 0 ] && echo true || echo false), \"builds\": $([ $build -eq 0 ] && echo true || echo false),"
